@@ -31,6 +31,12 @@ def _dy(v, bits=6):
     return math.floor(v * (1 << bits) + 0.5) / (1 << bits)
 
 
+# points *on* the coordinate planes / half-planes: the "zero" piece of sign(), the exact values 0, pi, +-pi/2 of phi, eta = 0.
+# They are regular points of every operation (off the z axis), so they belong to the generic alphabet, not to the boundary one.
+PLANE2 = [("phi0", (1.25, 0.0)), ("phipi", (-0.875, 0.0)), ("phi+h", (0.0, 1.625)), ("phi-h", (0.0, -0.5625))]
+PLANE3 = [("phi0", (1.25, 0.0, 0.6875)), ("phipi", (-0.875, 0.0, -1.125)), ("phi+h", (0.0, 1.625, 0.4375)), ("phi-h", (0.0, -0.5625, -2.25)), ("eta0", (1.5, -0.75, 0.0))]
+
+
 class Vec:
     """phi_turns != 0 marks a *non-canonical* storage: when the vector is stored in a rho-phi system its azimuth is
     stored as atan2(y, x) + phi_turns * 2 pi (the same geometric vector; a legitimate stored value outside [-pi, pi])."""
@@ -64,6 +70,8 @@ def vectors2(tier="quick", boundary=False):
         out.append(Vec(f"a{i}", (x, y), _tags2(x, y) | {"generic"}))
     out.append(Vec("wild+", (-0.9375, 1.375), {"generic", "wildphi", "q2"}, phi_turns=1))
     out.append(Vec("wild-", (1.0625, -0.5625), {"generic", "wildphi", "q4"}, phi_turns=-1))
+    for name, c in PLANE2:
+        out.append(Vec(name, c, {"generic", "plane"}))
     if boundary:
         for i, (x, y) in enumerate([(1.5, 0.0), (0.0, 2.25), (-0.75, 0.0), (0.0, -1.25)]):
             out.append(Vec(f"ax{i}", (x, y), {"boundary", "on_axis2"}))
@@ -84,6 +92,8 @@ def vectors3(tier="quick", boundary=False):
             k += 1
     out.append(Vec("wild+", (-0.9375, 1.375, -0.6875), {"generic", "wildphi", "q2", "down"}, phi_turns=1))
     out.append(Vec("wild-", (1.0625, -0.5625, 2.125), {"generic", "wildphi", "q4", "up"}, phi_turns=-1))
+    for name, c in PLANE3:
+        out.append(Vec(name, c, {"generic", "plane"} | ({"up"} if c[2] > 0 else {"down"} if c[2] < 0 else set())))
     # near the z axis (rho = 2^-10 |z|), both hemispheres: theta/eta conditioning
     for j, z in enumerate([1.75, -2.5]):
         r = abs(z) / 1024
@@ -106,7 +116,7 @@ def vectors4(tier="quick", boundary=False, kinds=("timelike", "fast", "spacelike
     negtime        t < 0                representable in t storage only
     """
     out = []
-    base = [v for v in vectors3(tier) if not v.has("near_axis") and not v.has("wildphi")]
+    base = [v for v in vectors3(tier) if not v.has("near_axis") and not v.has("wildphi") and not v.has("plane")]
     if tier != "thorough":
         base = base[::2] + [base[1], base[7]]
     base = base + [v for v in vectors3(tier) if v.has("near_axis")]
@@ -144,6 +154,13 @@ def vectors4(tier="quick", boundary=False, kinds=("timelike", "fast", "spacelike
             k += 1
     out.append(Vec("wild+", (-0.9375, 1.375, -0.6875, 2.75), {"generic", "wildphi", "timelike", "forward_timelike", "down"}, phi_turns=1))
     out.append(Vec("wild-", (1.0625, -0.5625, 2.125, 3.5), {"generic", "wildphi", "timelike", "forward_timelike", "up"}, phi_turns=-1))
+    for i, (name, c) in enumerate(PLANE3):
+        m = math.sqrt(sum(x * x for x in c))
+        if i == 3:
+            t = _dy(abs(c[2]) + (m - abs(c[2])) * 0.5, 8)  # one space-like member (|z| < t < |p|)
+            out.append(Vec(name, c + (t,), {"generic", "plane", "spacelike"}))
+        else:
+            out.append(Vec(name, c + (_dy(m * 1.375) + 1 / 64,), {"generic", "plane", "timelike", "forward_timelike"}))
     if boundary:
         # exactly light-like: Pythagorean quadruple (3,4,12,13)/8 and sign variants
         out.append(Vec("light0", (0.375, 0.5, 1.5, 1.625), {"boundary", "lightlike"}))
@@ -154,7 +171,7 @@ def vectors4(tier="quick", boundary=False, kinds=("timelike", "fast", "spacelike
     return out
 
 
-STRATA_TAGS = ("q1", "q2", "q3", "q4", "up", "down", "timelike", "fast", "spacelike", "spacelike_tltz", "negtime", "near_axis", "wildphi")
+STRATA_TAGS = ("q1", "q2", "q3", "q4", "up", "down", "timelike", "fast", "spacelike", "spacelike_tltz", "negtime", "near_axis", "wildphi", "plane")
 
 
 def representatives(vs, n, tags=STRATA_TAGS):
